@@ -6,6 +6,7 @@ real CoinSelector directly (larger lists, MAXIMUM_TRIES exhaustion), plus the pr
 implementation's behaviour with independent oracles (raw SQL on the wallet database, sizes of the real serialized
 objects, brute-force / closed-form coverage predicates)."""
 import asyncio
+import contextvars
 import itertools
 import json
 import os
@@ -29,6 +30,7 @@ SEEDS = [
     "ankle ramp tobacco civil merit bounce rival cable erupt pony absent tornado",
 ]
 GHOST = 2      # account 2 funds like the others but is not listed in wallet.accounts: tx.sign finds no key for its addresses
+pair_tag = contextvars.ContextVar('pair_tag', default=None)
 EXTERNAL_BASE = 1000000          # uid space of pre-chosen inputs that are not wallet rows
 SQLITE_REACH = 92233720368       # every amount below this is inside a window the sqlite chooser visits
 CLAIM_ID = '63f2da17b0d90042c559cc73b6b17f853945c43e'
@@ -107,6 +109,7 @@ class World:
         """insert the funding transactions of the case; returns {(tx_idx, out_idx): Output}"""
         ledger = self.ledger
         made = {}
+        self.funding_txs = []
         for ti, t in enumerate(case['txs']):
             outs = []
             for o in t['outs']:
@@ -127,6 +130,7 @@ class World:
                     if ph not in seen:
                         seen.add(ph)
                         await ledger.db.save_transaction_io(ftx, ledger.hash160_to_address(ph), ph, '')
+            self.funding_txs.append((ftx, sorted(seen)))
             k = 0
             for pos, o in enumerate(ftx.outputs):
                 if t.get('purchase') and pos == 1:
@@ -520,7 +524,7 @@ def out_fee_guess(d, fpb, fpnc):
 
 def gen_case(rng, strategy, tier):
     fpb = rng.choice(FEE_RATES)
-    fpnc = rng.choice([0, 0, 0, 1000, 200000])
+    fpnc = rng.choice([0, 0, 1000, 200000, 200000])
     n_accounts = rng.choice([1, 1, 1, 1, 2, 2, 3])
     if n_accounts == 3:
         funding = rng.choice([[0, GHOST], [GHOST, 0], [GHOST], [1, GHOST, 0]])
@@ -571,7 +575,8 @@ def gen_case(rng, strategy, tier):
     for k in kinds:
         d = {'kind': k, 'amount': 1}
         if k in ('claim', 'update', 'support'):
-            d['name'] = 'n' * rng.choice([1, 3, 12, 40])
+            d['name'] = rng.choice(['n' * rng.choice([1, 3, 12, 40]), 'na\u00efve-caf\u00e9', '\u540d\u524d' * rng.choice([1, 4, 10]),
+                                    '\U0001f600' * rng.choice([1, 5, 12]), '\u00e9' * rng.choice([2, 20, 60])])
         if k in ('claim', 'update'):
             d['payload'] = rng.choice([0, 10, 200, 300, 4000])
         case['outs'].append(d)
@@ -724,6 +729,13 @@ def histogram(run, case, impl, obs):
         run.count('signed')
     if case.get('locked'):
         run.count('locked-account')
+    for o in obs['outs']:
+        if o.script.is_claim_name:
+            nm = o.script.values['claim_name']
+            if len(nm) != len(nm.decode()):
+                run.count('claim name longer in bytes than in characters')
+                if len(nm) * case['fpnc'] > o.size * case['fpb']:
+                    run.count('... and its name fee exceeds the size fee')
     if case.get('pre'):
         run.count('pre-chosen-inputs')
 
@@ -768,6 +780,117 @@ def check_select(run, model, case, kind):
         run.compare('C03.select', case, impl, mod)
 
 
+
+# ----------------------------------------------------------------------------------------------
+# two or three builds at the same time on one ledger: "every added input is an unspent, UNRESERVED output"
+# must also hold against what the other builds have just taken (the schedule-level statement is C14)
+# ----------------------------------------------------------------------------------------------
+def gen_pair_case(rng, strategy):
+    fpb = rng.choice([1, 10, 50, 50, 1000])
+    txs = gen_wallet(rng, fpb, 1, rng.choice([1, 2, 3, 4, 6, 8]))
+    for t in txs:
+        t.pop('purchase', None)
+    effs = [o['amount'] - 148 * fpb for t in txs for o in t['outs']]
+    builds = []
+    for _ in range(rng.choice([2, 2, 3])):
+        want = max(1, rng.choice(effs) - rng.choice([0, 46 * fpb, 56 * fpb + 1001, rng.randrange(0, 3000)])) \
+            if rng.random() < 0.7 else max(1, sum(e for e in effs if e > 0) // rng.choice([1, 2, 3]))
+        builds.append({'outs': [{'kind': 'pay', 'amount': max(1, want - 44 * fpb)}]})
+    return {'kind': 'pair', 'fpb': fpb, 'fpnc': 0, 'strategy': strategy, 'funding': [0], 'change': 0, 'txs': txs,
+            'reserved': [], 'builds': builds, 'seed': rng.getrandbits(32)}
+
+
+async def check_pair(run, world, model, case, kind):
+    ledger = world.ledger
+    await prepare(world, case)
+    ledger.coin_selection_strategy = case['strategy']
+    funding = [world.accounts[i] for i in case['funding']]
+    rows_before = await world.rows(funding)
+    rid_of = {r['txoid']: r['rid'] for r in await world.sql("SELECT rowid AS rid, txoid FROM txo")}
+    by_rid = {r['rid']: r for r in rows_before}
+    RecordingRandom.log = []
+    RecordingRandom.source = random.Random(case.get('seed', 0))
+    RecordingRandom.tagger = pair_tag.get
+
+    async def one(i, d):
+        pair_tag.set(i)
+        outs = make_outputs(d['outs'])
+        try:
+            tx = await Transaction.create([], outs, funding, funding[0], sign=False)
+        except InsufficientFundsError:
+            return {'result': 'InsufficientFundsError'}, None, outs
+        except Exception as e:  # noqa
+            return {'result': type(e).__name__ + ':' + str(e)[:60]}, None, outs
+        extra = list(tx.outputs)[len(outs):]
+        return ({'result': 'ok', 'added': [rid_of.get(t.txo_ref.id, -1) for t in tx.inputs],
+                 'change': extra[0].amount if len(extra) == 1 else (None if not extra else [o.amount for o in extra])}, tx, outs)
+    try:
+        got = await asyncio.gather(*(one(i, d) for i, d in enumerate(case['builds'])))
+    finally:
+        RecordingRandom.tagger = None
+    reserved_mid = sorted(rid_of[t] for t in await world.reserved_txoids())
+    for _, tx, _ in got:
+        if tx is not None:
+            await ledger.release_tx(tx)
+    reserved_end = sorted(rid_of[t] for t in await world.reserved_txoids())
+    run.case(dict(case, origin=kind), nontrivial=sum(1 for g, _, _ in got if g['result'] == 'ok') >= 2)
+    run.count('concurrent-pair:%s' % case['strategy'])
+    # monitor
+    bad = None
+    seen = {}
+    for i, (g, tx, _) in enumerate(got):
+        if g['result'] not in ('ok', 'InsufficientFundsError'):
+            bad = 'build %d failed with %s' % (i, g['result'])
+        for a in g.get('added', []):
+            r = by_rid.get(a)
+            if r is None or r['spent'] or r['is_reserved']:
+                bad = 'build %d added %s which is not an unspent unreserved output' % (i, a)
+            if a in seen:
+                bad = ('builds %d and %d were both handed output %s: the second one added an input that was already '
+                       'reserved' % (seen[a], i, a))
+            seen[a] = i
+    if not bad and reserved_mid != sorted(seen):
+        bad = 'with both builds in flight reserved=%s but their inputs are %s' % (reserved_mid, sorted(seen))
+    if not bad and reserved_end != []:
+        bad = 'after abandoning every build %s is still reserved' % reserved_end
+    if bad:
+        run.violation(case, bad, signature={'case': vlib.canon(case)})
+        return
+    # some sequential order of Model/C03's create must explain the outcome
+    shuffles_by = {}
+    for a, b, who in RecordingRandom.log:
+        shuffles_by.setdefault(who, []).append([[rid_of[i] for i in a], [rid_of[i] for i in b]])
+    impl = [g for g, _, _ in got]
+    if case['strategy'] == 'sqlite':
+        for g in impl:
+            if 'added' in g:
+                g['added'] = sorted(g['added'])
+    first = None
+    for order in itertools.permutations(range(len(got))):
+        wallet = model_wallet(rows_before)
+        mod = [None] * len(got)
+        for i in order:
+            try:
+                m = model.call('create', fpb=case['fpb'], fpnc=0, strategy=case['strategy'], shuffles=shuffles_by.get(i, []),
+                               pre=[], outs=[out_desc(o, None) for o in got[i][2]], wallet=wallet)
+            except vlib.ModelError as e:
+                m = {'result': 'MODELERROR ' + str(e)}
+            if m.get('result') == 'ok':
+                mod[i] = {'result': 'ok', 'added': sorted(m['added']) if case['strategy'] == 'sqlite' else m['added'],
+                          'change': m['change']}
+                for e in wallet:
+                    if e[0][0] in m['added']:
+                        e[1] = True
+            else:
+                mod[i] = {'result': m.get('result')}
+        if first is None:
+            first = mod
+        if vlib.canon(mod) == vlib.canon(impl):
+            first = mod
+            break
+    run.compare('C03.linearizable', case, impl, first)
+
+
 def check_sizes(run, model):
     """micro-correspondence: every size constant of the model against the real serialized objects"""
     txo = Transaction().add_outputs([Output.pay_pubkey_hash(COIN, b'\x01' * 20)]).outputs[0]
@@ -806,6 +929,8 @@ async def amain(run, only=None):
                 check_select(run, model, only, 'replay')
             elif only.get('kind') == 'sizes':
                 check_sizes(run, model)
+            elif only.get('kind') == 'pair':
+                await check_pair(run, world, model, only, 'replay')
             else:
                 await check_create(run, world, model, only, 'replay')
             return
@@ -816,6 +941,8 @@ async def amain(run, only=None):
             case.pop('origin', None)
             if case.get('kind') == 'select':
                 check_select(run, model, case, 'corpus')
+            elif case.get('kind') == 'pair':
+                await check_pair(run, world, model, case, 'corpus')
             else:
                 await check_create(run, world, model, case, 'corpus')
         n_create = vlib.scaled(run.tier, 190, 4000)
@@ -824,6 +951,9 @@ async def amain(run, only=None):
         for k in range(n_create):
             for s in strats:
                 await check_create(run, world, model, gen_case(rng, s, run.tier), 'generated')
+        for k in range(vlib.scaled(run.tier, 12, 300)):
+            for s in strats:
+                await check_pair(run, world, model, gen_pair_case(rng, s), 'generated')
         sel_strats = [s for s in strats if s != 'sqlite']
         for k in range(n_select):
             for s in sel_strats:
